@@ -11,14 +11,15 @@
                          (today: true up to happens-before, C03_lockset_hb; the pure common-lock form
                          fails only for the sort of a listing; refuted before cbef301: error paths of
                          mem.File read fileData.name unlocked)
-     C03_quiescent_wf  : forall well-typed progs sched, quiescent -> consistent
-                         (today: reduced to the sequential bodies, _partial; refuted before ce143d9)
+   C03_quiescent_consistent (was a FULL statement without a theorem: "forall well-typed progs sched,
+                         quiescent -> consistent") is a theorem now, for the class cc_wtq of
+                         Model/ConcClass.v; it was refuted before ce143d9
    C03_no_deadlock / C03_no_unlock_error / C03_panic_keeps_locks_balanced hold for TODAY's table;
    they were refuted (witnesses kept below, `cf_legacy`) for RemoveAll as it was before commit
    ce143d9 "RemoveAll removes the subtree in one critical section". *)
 From Coq Require Import String.
 From AF Require Import Lib.Bytes Lib.Path Lib.Ops Gen.Consts Model.MemFile Model.MemFs Model.Conc
-  Model.ConcStatic Gen.ConcTab Proofs.ConcProof.
+  Model.ConcStatic Model.ConcClass Gen.ConcTab Proofs.MemFsWF Proofs.MemFsStep Proofs.ConcProof Proofs.ConcQuiescent.
 
 (* ================================================================== lockset *)
 (* TODAY'S TABLE (after commits cbef301 and 2d6ed35).  Every pair of conflicting annotated accesses
@@ -231,14 +232,12 @@ Print Assumptions C03_panic_leak_refuted_before_ce143d9.
    every existing path has an existing parent directory that lists it under its own name, and
    every listed entry exists (and is that node, in that directory).
 
-   Transfer to the sequential model: in today's table every method has at most ONE section that
-   changes the tree (Create, OpenFile's openOrCreate, Mkdir's locked section, Remove, RemoveAll,
-   Rename).  Hence every predicate of the tree part of the state that the sequential bodies
-   preserve — on the calls the programs contain — holds in EVERY configuration of EVERY schedule.
-   With P := consistency this reduces the quiescent-consistency clause for concurrent programs to
-   the sequential model (validated against the code by C01/C02's correspondence runs); that
-   sequential preservation is a hypothesis here, not a theorem: hence _partial. *)
-Theorem C03_quiescent_wf_partial :
+   Transfer to the sequential model (a lemma of the theorem below, kept because it holds for EVERY
+   predicate and class): in today's table every method has at most ONE section that changes the tree
+   (Create, OpenFile's openOrCreate, Mkdir's locked section, Remove, RemoveAll, Rename).  Hence every
+   predicate of the tree part of the state that the sequential bodies preserve — on the calls the
+   programs contain — holds in EVERY configuration of EVERY schedule. *)
+Theorem C03_quiescent_transfer :
   forall (P : mst -> Prop) (A : op -> Prop),
     (forall s s', cc_tree_of s = cc_tree_of s' -> P s -> P s') ->
     (forall s p, A (Create p) -> P s -> P (fst (m_create s (normalize_path p)))) ->
@@ -253,7 +252,68 @@ Theorem C03_quiescent_wf_partial :
       (forall sp o, In sp progs -> In o (snd sp) -> A o) -> P s0 ->
       P (cf_st (cc_run_from s0 progs sched)).
 Proof. exact conc_transfer. Qed.
-Print Assumptions C03_quiescent_wf_partial.
+Print Assumptions C03_quiescent_transfer.
+
+(* THE CONSISTENCY CLAUSE, with no sequential-preservation hypothesis left.
+
+   Class (Model/ConcClass.v, all boolean): cc_wtq s0 progs =
+     every call satisfies cc_wt_op (Model/Conc.v: the last component of a name fixes its kind — f* a
+       regular file, x* only ever the target of a directory rename, anything else a directory — and
+       Create/OpenFile/Remove take file names, Mkdir/MkdirAll directory names, Rename a file onto a file
+       name or a directory onto an x name, RemoveAll/Open/Stat/Chmod/Chtimes no x name) and cc_names_ok
+       (names are absolute; a name that the call may CREATE — Create, OpenFile, Mkdir, MkdirAll, the
+       target of Rename — has only directory names as proper ancestors; RemoveAll and Rename do not
+       take the root; the target of a Rename does not lie below its source);
+     and cc_xfresh: the x targets of all directory renames of the program set are pairwise different
+       and absent from s0 ("directories onto otherwise unused names").
+   A call of this class need NOT be well-formed (wf_op, Model/WfOps.v) in the state in which it
+   happens to start — Create("/d1/f1") may find /d1 removed by another goroutine, Rename's target
+   directory may be gone — the class is what makes it well-formed OR harmless in EVERY state another
+   goroutine of the class can produce (MemMapFs creates missing ancestors as directories; nothing of
+   the class turns a file name into a directory or re-creates a rename target).
+   Initial state: any s0 with WF s0 (Proofs/MemFsWF.v; the invariant of C01) whose existing names
+   have the kinds their last components say (cc_kinds_ok, boolean) — in particular the empty
+   filesystem (C03_quiescent_consistent_empty) and every state that the setup / prologue part of a
+   case builds from calls of the class (C03_quiescent_consistent_case).
+   Conclusion, for EVERY configuration reached by EVERY schedule (a fortiori once all calls have
+   returned, cc_quiescentb): WF of the tree, hence cc_consistentb = true (what the harness sweep
+   computes on the implementation's dump), i.e. the clauses spelled out:
+     cc_clause_parent: every existing path other than the root has an existing parent that is a
+       directory and lists the path (under the path's own name, as that very node);
+     cc_clause_listed: every entry listed by an existing directory exists (under the listed name, as
+       the listed node) and that directory is its parent. *)
+Theorem C03_quiescent_consistent :
+  forall s0 progs sched,
+    WF s0 -> cc_kinds_ok s0 = true -> cc_wtq s0 progs = true ->
+    let s := cf_st (cc_run_from s0 progs sched) in
+    WF s /\ cc_consistentb s = true /\ cc_clause_parent s /\ cc_clause_listed s.
+Proof. exact conc_quiescent_consistent. Qed.
+Print Assumptions C03_quiescent_consistent.
+
+(* the boolean the sweep computes IS the conjunction of the two clauses, in every state *)
+Theorem C03_consistentb_is_the_clauses :
+  forall s, cc_consistentb s = true <-> cc_clause_parent s /\ cc_clause_listed s.
+Proof. exact cc_consistentb_spec. Qed.
+Print Assumptions C03_consistentb_is_the_clauses.
+
+(* from the empty filesystem *)
+Theorem C03_quiescent_consistent_empty :
+  forall progs sched, cc_wtq m_init progs = true ->
+    cc_consistentb (cf_st (cc_run_from m_init progs sched)) = true.
+Proof. exact conc_quiescent_empty. Qed.
+Print Assumptions C03_quiescent_consistent_empty.
+
+(* a whole case of the harness (cc_case_cfg: the setup calls, then the prologue of every goroutine, run
+   sequentially from the empty filesystem; then the goroutines concurrently): if all its calls are
+   of the class and the targets of its directory renames are pairwise different (cc_case_wtq), then
+   the state the setup builds satisfies the hypotheses above and every configuration of every
+   schedule is consistent — no hypothesis about any state is left *)
+Theorem C03_quiescent_consistent_case :
+  forall setup progs sched, cc_case_wtq setup progs = true ->
+    let s := cf_st (run_sched_from (cc_case_cfg setup progs) sched) in
+    WF s /\ cc_consistentb s = true /\ cc_clause_parent s /\ cc_clause_listed s.
+Proof. exact conc_quiescent_case. Qed.
+Print Assumptions C03_quiescent_consistent_case.
 
 (* REFUTED before ce143d9, by well-typed programs without any panic: RemoveAll("/d1") unregistered
    /d1, snapshotted the keys below it and deleted them one by one, releasing mu in between; a
@@ -391,3 +451,72 @@ Proof. vm_compute. auto. Qed.
 (* the hypothesis of the conditional legacy theorem is satisfiable: a run without leak *)
 Example C03_ex_noleak : cc_noleakb (run_sched_legacy w_panic_progs w_panic_sched) = true.
 Proof. vm_compute. reflexivity. Qed.
+
+(* ================================================================== quiescent consistency: examples *)
+(* three goroutines, Mkdir / MkdirAll / Create / Rename (of files, and of directories onto unused
+   names, one of them into a directory that another goroutine removes) / RemoveAll on overlapping
+   names: in the class, hence consistent in every configuration of EVERY schedule ... *)
+Definition ex_q_progs : list (list (option nat) * list op) :=
+  [([], [Create (nm "/d1/f1"); Rename (nm "/d1/f1") (nm "/d2/f1"); RemoveAll (nm "/d1")]);
+   ([], [Mkdir (nm "/d1") 493%Z; Create (nm "/d1/e1/f2"); Rename (nm "/d1") (nm "/x1")]);
+   ([], [MkdirAll (nm "/d2/e1") 493%Z; RemoveAll (nm "/d2"); Rename (nm "/d1/e1") (nm "/d2/x2"); Create (nm "/d2/f1")])].
+
+Example C03_ex_quiescent_consistent : forall sched,
+  WF (cf_st (cc_run_from m_init ex_q_progs sched)) /\
+  cc_consistentb (cf_st (cc_run_from m_init ex_q_progs sched)) = true.
+Proof.
+  intros sched. destruct (C03_quiescent_consistent m_init ex_q_progs sched WF_init) as (W & C & _); [reflexivity | vm_compute; reflexivity |].
+  split; assumption.
+Qed.
+
+(* ... for instance this one, run to quiescence: goroutine 1 first (its rename moves /d1 with
+   /d1/e1/f2 to /x1), then 2 (whose rename finds its source gone), then 0 (which re-creates /d1 for
+   its file, moves the file into /d2 — re-created by 2's last Create — and removes /d1 again) *)
+Example C03_ex_quiescent_run :
+  let c := cc_drain 500 (cc_run_from m_init ex_q_progs (repeat 1%nat 40 ++ repeat 2%nat 30 ++ repeat 0%nat 30)%list) in
+  cc_quiescentb c = true /\ cc_consistentb (cf_st c) = true /\ cf_panics c = 0%nat /\
+  map fst (mdata (cf_st c)) = map nm ["/"; "/x1"; "/x1/e1"; "/x1/e1/f2"; "/d2/f1"; "/d2"].
+Proof. vm_compute. repeat split; reflexivity. Qed.
+
+(* a case with a setup: the class is checked on the calls alone *)
+Example C03_ex_quiescent_case : forall sched,
+  cc_consistentb (cf_st (run_sched_from
+     (cc_case_cfg [MkdirAll (nm "/d1/e1") 493%Z; Create (nm "/d1/e1/f1"); HWrite 1 [104%N; 105%N]; Create (nm "/f2")]
+                  [([Open (nm "/d1")], [HReaddirnames 0 (-1)%Z; Rename (nm "/d1/e1") (nm "/x7"); Create (nm "/d1/e1/f1")]);
+                   ([OpenFile (nm "/d1/e1/f1") 2%Z 420%Z], [HWrite 0 [33%N]; RemoveAll (nm "/d1"); Rename (nm "/f2") (nm "/d1/f2")])])
+     sched)) = true.
+Proof. intros sched. apply C03_quiescent_consistent_case. vm_compute. reflexivity. Qed.
+
+(* every side condition of the class is needed — in the MODEL; these are ill-formed SEQUENTIAL
+   programs (one goroutine), outside the property's class and outside C01's portable calls, and what
+   MemMapFs does with them is recorded in DESIGN.md 0.5: RemoveAll of the root deletes only the
+   root's key; a second directory rename onto the same target orphans the first one's children; a
+   rename below its own source; a file name used as a directory; Rename of the root; an x name as a
+   proper ancestor (the target of the rename then lies below ... its own source) *)
+Definition ex_seq (ops : list op) : cc_cfg := cc_drain 500 (cc_run_from m_init [([], ops)] []).
+Example C03_ex_class_conditions_needed :
+  map (fun ops => (cc_quiescentb (ex_seq ops), cc_consistentb (cf_st (ex_seq ops)), cc_wtq m_init [([], ops)]))
+    [[Create (nm "/d1/f1"); RemoveAll (nm "/")];
+     [Create (nm "/d1/f1"); Create (nm "/d2/f2"); Rename (nm "/d1") (nm "/x1"); Rename (nm "/d2") (nm "/x1")];
+     [Create (nm "/d1/f1"); Rename (nm "/d1") (nm "/d1/x1")];
+     [Mkdir (nm "/f1/d1") 493%Z; Create (nm "/f1")];
+     [Create (nm "/d1/f1"); Rename (nm "/") (nm "/x1")]]
+  = [(true, false, false); (true, false, false); (true, false, false); (true, false, false); (true, false, false)].
+Proof. vm_compute. reflexivity. Qed.
+
+(* the corpus cases corpus/C03/quiescent-class.case (replayed 300x under -race by every run of the
+   check: the two examples above, a Rename whose target directory is removed and re-created by
+   other goroutines, creations below a directory that is being removed / renamed away) are cases of
+   the class: C03_quiescent_consistent_case applies to each of them *)
+Example C03_ex_corpus_cases_in_class :
+  cc_case_wtq [] (map (fun ops => ([], ops)) (map snd ex_q_progs)) = true /\
+  cc_case_wtq [Create (nm "/d1/f1"); Create (nm "/d1/e1/f2"); MkdirAll (nm "/d2/e1") 493%Z]
+    [([], [RemoveAll (nm "/d2"); MkdirAll (nm "/d2/e1") 493%Z]);
+     ([], [Rename (nm "/d1/f1") (nm "/d2/e1/f1"); Rename (nm "/d1/e1") (nm "/d2/e1/x1")]);
+     ([], [RemoveAll (nm "/d2/e1"); Create (nm "/d2/e1/f2")])] = true /\
+  cc_case_wtq [MkdirAll (nm "/d1/e1") 493%Z; MkdirAll (nm "/d1/e2") 493%Z]
+    [([], [RemoveAll (nm "/d1")]);
+     ([], [Create (nm "/d1/e1/f1"); OpenFile (nm "/d1/e2/f2") 66%Z 420%Z]);
+     ([], [Mkdir (nm "/d1/e1") 448%Z; Rename (nm "/d1") (nm "/x1")]);
+     ([], [MkdirAll (nm "/d1/e2") 493%Z; Rename (nm "/d1/e2") (nm "/x2")])] = true.
+Proof. vm_compute. auto. Qed.
